@@ -2749,13 +2749,18 @@ class Deb822FileElement(Deb822Element):
         # Note the special case where the file ends on a comment; here we insert a whitespace too
         # to be sure.  Otherwise we would have to check that there is an empty line before that
         # comment and that is too much effort.
-        if tail_element is not None and not isinstance(tail_element, Deb822WhitespaceToken):
+        if tail_element is not None:
+            # Without this, the separator below would merely terminate the
+            # last line of a file that lacks its final newline and the two
+            # paragraphs would become one.
             if isinstance(tail_element, Deb822ParagraphElement):
-                # Without this, the separator below would merely terminate the
-                # last line of a file that lacks its final newline and the two
-                # paragraphs would become one.
                 tail_element._add_final_newline_if_missing()
-            self._token_and_elements.append(self._set_parent(Deb822WhitespaceToken('\n')))
+            elif not tail_element.convert_to_text().endswith("\n"):
+                # The file ends on a comment or a whitespace-only line
+                # that lacks its newline.
+                self._token_and_elements.append(self._set_parent(Deb822WhitespaceToken('\n')))
+            if not isinstance(tail_element, Deb822WhitespaceToken):
+                self._token_and_elements.append(self._set_parent(Deb822WhitespaceToken('\n')))
         self._token_and_elements.append(self._set_parent(paragraph))
         paragraph.parent_element = self
 
